@@ -21,10 +21,10 @@ def pad (w : Nat) (n : Nat) : Bytes :=
 
 /-- `time.Unix(sec, 0).UTC().Format("2006-01-02")` for years 0..9999 -/
 def formatDate (unixSec : Int) : Bytes :=
-  let (y, m, d) := civilFromDays (Int.fdiv unixSec 86400)
+  let (y, m, d) := civilFromDays (unixSec / 86400)
   pad 4 y.toNat ++ [45] ++ pad 2 m ++ [45] ++ pad 2 d
 
 /-- `FormatFromDate`: date of (from − 30 min) in UTC; `fromNs` is the Unix nanosecond -/
-def formatFromDate (fromNs : Int) : Bytes := formatDate (Int.fdiv fromNs 1000000000 - 1800)
+def formatFromDate (fromNs : Int) : Bytes := formatDate (fromNs / 1000000000 - 1800)
 
 end Qryn.Time
